@@ -509,7 +509,7 @@ def build_configs(tier, seed):
         bnd = {'b%d' % f: [f] for f in range(nf)}
         add('restrict/%s' % mesh, restrict_config, mesh=mesh, selections=sels2, sub={'s0': [0], 's1': [1], 's01': [0, 1]}, bnd=bnd)
     # joining meshes / merging duplicate vertices (nominal ordering of the points; see the stub note)
-    for mesh, split in [('tri2', ([0], [1])), ('tri3fan', ([0, 1], [2])), ('quad2', ([1], [0])), ('tet2', ([0], [1])), ('line3perm', ([0, 2], [1]))]:
+    for mesh, split in [('tri2', ([0], [1])), ('tri3fan', ([0, 1], [2])), ('quad2', ([1], [0])), ('tet2', ([0], [1])), ('line3perm', ([0, 2], [1])), ('hex2', ([1], [0]))]:
         for op in ('add', 'matmul', 'remove_duplicate_nodes'):
             cfgs.append(dict(name='join/%s/%s+%s/%s' % (mesh, ''.join(map(str, split[0])), ''.join(map(str, split[1])), op), fn=join_config,
                              kw=dict(mesh=mesh, split=split, op=op), opts=dict(timeout=900, follow_nominal=True)))
